@@ -431,7 +431,8 @@ def make_call(sc: dict, root: str, target_rel: str, writer: dict | None = None):
             # so that a reference run and a faulted run of the same scenario produce the same bytes
             from . import c06_calls
 
-            c06_calls.install_clock(c06_calls.SimClock(1_700_000_000.0))
+            with seam.passthrough():
+                c06_calls.install_clock(c06_calls.SimClock(1_700_000_000.0))
             return run_cli(args)
 
         return call
